@@ -39,6 +39,21 @@ Theorem C18_filter_semantics : forall own f from addr m,
 Proof. exact fmatch_accepts. Qed.
 Print Assumptions C18_filter_semantics.
 
+(* the matchmaker's index is exact: the rule lists bus_matchmaker_get_recipients consults (no type and no interface; just the
+   message's interface; and, for the four defined message types only, just the type and both) contain every rule that can
+   accept the message - also for a message whose type byte is none of the defined ones; hence the lookup lists a recipient
+   once iff one of ALL its rules accepts (this is what C18_sees_once counts with) *)
+Theorem C18_index_exact : forall own ev rules x from addr m,
+  existsb (fun p => wantsb own ev p x from addr m) (the_pools rules m) = wantsb own ev rules x from addr m.
+Proof. exact wantsb_pools. Qed.
+Print Assumptions C18_index_exact.
+
+Theorem C18_lookup_counts : forall own ev rules from addr m x,
+  count_occ N.eq_dec (get_recipients own ev rules from addr m) x =
+  if negb (match addr with Some a => a =? x | None => false end) && wantsb own ev rules x from addr m then 1%nat else 0%nat.
+Proof. exact count_get_recipients. Qed.
+Print Assumptions C18_lookup_counts.
+
 Definition ping (serial : N) : bmsg := mkB TCall SNone None I_PEER M_PING serial 0 0 false false [].
 Definition bm (c : cid) (serial : N) (rs : list (option flt)) : event := EBecomeMonitor c serial true 0 rs.
 Definition h_mon : list event := [EConnect true; EConnect true; bm 1 2 []].
@@ -225,7 +240,7 @@ Print Assumptions C18_once_total.
 
 (* F18c: with another monitor present, the connection that is becoming a monitor receives the
    NameOwnerChanged for its own unique name twice: through the ordinary rule it still has and as a monitor copy *)
-Definition noc_filter : flt := mkFilter (Some TSignal) None None None (Some M_NAME_OWNER_CHANGED).
+Definition noc_filter : flt := mkFilter (Some KSignal) None None None (Some M_NAME_OWNER_CHANGED).
 Definition h_two : list event := [EConnect true; EConnect true; EConnect true; bm 2 2 []; EAddMatch 0 2 noc_filter].
 Lemma st_two_reachable : reachable (state_after h_two).
 Proof. exists h_two; reflexivity. Qed.
@@ -279,6 +294,16 @@ Definition h_sel : list event :=
 Example ex_selective :
   (map i_cap (snd (step (state_after h_sel) (ESend 0 (sig 3)))), map i_cap (snd (step (state_after h_sel) (ESend 1 (sig 3))))) =
   ([[2]], [[]]).
+Proof. vm_compute. reflexivity. Qed.
+
+(* a message of a type the specification does not define (type byte 5) to connection 1: refused with AccessDenied, never
+   delivered; the monitor whose only rule is interface=6 (no type) gets its copy of the message, and none of the error *)
+Definition h_odd : list event :=
+  [EConnect true; EConnect true; EConnect true; bm 2 2 [Some (mkFilter None None None (Some 6) None)]].
+Example ex_undefined_type :
+  map (fun it => (i_cap it, i_direct it, b_err (i_msg it)))
+      (snd (step (state_after h_odd) (ESend 0 (mkB (TOther 5) SNone (Some (NUniq 1)) 6 20 2 0 0 false false [])))) =
+  [([2], None, 0); ([], Some 0, E_ACCESS_DENIED)].
 Proof. vm_compute. reflexivity. Qed.
 
 (* the monitor sends a signal: closed, nothing emitted *)
